@@ -2443,5 +2443,14 @@ def _props_layer():
         if mod not in plan["modules"]: plan["modules"] = [mod] + plan["modules"]
         plan["theorems"] = [f"Props.{pid}.{n}" for n in names] + [t for t in plan["theorems"]]
 
+# C06 / C08's grace period enters the CLI through --stop-timeout (unit-less = seconds): the time-span stream runs under C06 as well
+def _c06_with_spans():
+    plan = PLANS["C06"]; inner = plan["streams"]
+    plan["streams"] = lambda ctx: inner(ctx) + [timespan_stream("C06", ctx)]
+    plan["bins"] = list(plan.get("bins", [])) + [("cli", ["wxspan"])]
+    plan["modules"] = plan["modules"] + ["Wx.Cli.TimeSpanThm"]
+    plan["theorems"] = plan["theorems"] + ["Ca.Ts.unitless_is_scaled", "Ca.Ts.unit_is_respected"]
+    plan["sources"] = plan["sources"] + ["crates/cli/src/args.rs", "crates/cli/src/args/command.rs"]
+_c06_with_spans()
 _props_layer()
 PLANS["C19"]["modules"].append("Wx.Pure.SignalsCase"); PLANS["C19"]["theorems"] += ["Wp.parse_case_insensitive", "Wp.parse_toUpper"]
